@@ -1023,5 +1023,79 @@ theorem inv_all_empty {st : Shards ν} (h : Inv R st) : Inv R (st.map (fun _ => 
 
 end fanall
 
+/-! ## RANDOMKEY: the shards are asked in turn -/
+
+section randomkey
+variable {S : Sig} (E : Exec S)
+
+theorem randomkeyFrom_spec (st : Shards S.Val) (is : List Nat) :
+    randomkeyFrom E st is =
+      (st, .rkey (is.findSome? (fun i => (NMap.keys (shard st i)).head?))) := by
+  induction is with
+  | nil => rfl
+  | cons i is ih =>
+    have h1 : onShard E st i .randomkey = (st, .rkey (NMap.keys (shard st i)).head?) := by
+      show (st.set i (shard st i), _) = _
+      rw [shard_set_self]; rfl
+    unfold randomkeyFrom
+    simp only [h1, List.findSome?_cons]
+    cases hk : (NMap.keys (shard st i)).head? with
+    | none => simp [ih]
+    | some k => simp
+
+variable {E} {R : Routes}
+
+/-- **RANDOMKEY on N shards**: the state is untouched; the reply is nil iff the union of the
+    shards is empty (iff ONE executor on the union answers nil), and a non-nil reply names a key
+    of the union -/
+theorem randomkey_spec {st : Shards S.Val} (h : Inv R st) :
+    (randomkeyFrom E st (List.range R.N)).1 = st ∧
+    ∃ o, (randomkeyFrom E st (List.range R.N)).2 = .rkey o ∧
+      (o = none ↔ (NMap.keys (abs st)).head? = none) ∧
+      (∀ k, o = some k → present (abs st) k = true) := by
+  rw [randomkeyFrom_spec]
+  refine ⟨rfl, _, rfl, ?_, ?_⟩
+  · rw [List.findSome?_eq_none_iff]
+    constructor
+    · intro hall
+      have hempty : st.flatMap NMap.keys = [] := by
+        rw [List.flatMap_eq_nil_iff]
+        intro s hs
+        obtain ⟨i, hi, he⟩ := mem_shard st s hs
+        have := hall i (List.mem_range.mpr (by rw [← h.len]; exact hi))
+        rw [he] at this
+        cases hk : NMap.keys s with
+        | nil => rfl
+        | cons a l => rw [hk] at this; cases this
+      have := (keys_abs_perm h).length_eq
+      rw [hempty] at this
+      cases hk : NMap.keys (abs st) with
+      | nil => rfl
+      | cons a l => rw [hk] at this; cases this
+    · intro hnone i _
+      have habs : NMap.keys (abs st) = [] := by
+        cases hk : NMap.keys (abs st) with
+        | nil => rfl
+        | cons a l => rw [hk] at hnone; cases hnone
+      have hp := keys_abs_perm h
+      rw [habs] at hp
+      have hempty : st.flatMap NMap.keys = [] := List.perm_nil.mp hp
+      by_cases hi : i < st.length
+      · have := List.flatMap_eq_nil_iff.mp hempty _ (shard_mem st i hi)
+        rw [this]; rfl
+      · rw [shard_of_ge st i (by omega)]; rfl
+  · intro k hk
+    obtain ⟨i, hi, hki⟩ := List.exists_of_findSome?_eq_some hk
+    have hmem : k ∈ NMap.keys (shard st i) := List.mem_of_head? hki
+    have hlt : i < st.length := by
+      apply Classical.byContradiction; intro hc
+      rw [shard_of_ge st i (by omega)] at hmem; cases hmem
+    have : k ∈ st.flatMap NMap.keys := List.mem_flatMap.mpr ⟨_, shard_mem st i hlt, hmem⟩
+    have := (keys_abs_perm h).mem_iff.mp this
+    unfold present
+    exact (mem_keys_iff h.wf_abs k).mp this
+
+end randomkey
+
 end Shards
 end RedisVerif
